@@ -394,26 +394,25 @@ impl Lowerer {
                     .try_collect()?;
 
                 let span = expr.span;
-                let lit = RelationLiteral {
-                    columns: columns
-                        .iter()
-                        .map(|c| {
-                            c.as_single().unwrap().clone().ok_or_else(|| {
-                                Error::new_simple("every column of a relation literal needs a name")
-                                    .with_span(span)
-                            })
+                let names: Vec<String> = columns
+                    .iter()
+                    .map(|c| {
+                        c.as_single().unwrap().clone().ok_or_else(|| {
+                            Error::new_simple("every column of a relation literal needs a name")
+                                .with_span(span)
                         })
-                        .try_collect()?,
+                    })
+                    .try_collect()?;
+                let lit = RelationLiteral {
                     rows: elements
                         .into_iter()
                         .map(|row| {
                             let row_span = row.span;
-                            row.kind
-                                .into_tuple()
-                                .map_err(|_| {
-                                    Error::new_simple("every row of a relation literal must be a tuple")
-                                        .with_span(row_span)
-                                })?
+                            let fields = row.kind.into_tuple().map_err(|_| {
+                                Error::new_simple("every row of a relation literal must be a tuple")
+                                    .with_span(row_span)
+                            })?;
+                            order_row_fields(fields, &names)
                                 .into_iter()
                                 .map(|element| {
                                     element.try_cast(
@@ -425,6 +424,7 @@ impl Lowerer {
                                 .try_collect()
                         })
                         .try_collect()?,
+                    columns: names,
                 };
 
                 log::debug!("lowering literal relation table, columns = {columns:?}");
@@ -1058,6 +1058,27 @@ impl Lowerer {
 
         Ok(cid)
     }
+}
+
+/// The fields of a row of a relation literal, in the order of the relation's columns when the
+/// row names every one of them (`{b = 3, a = 4}` in a relation of `a, b`); as written otherwise.
+fn order_row_fields(fields: Vec<pl::Expr>, names: &[String]) -> Vec<pl::Expr> {
+    let position = |f: &pl::Expr| f.alias.as_ref().and_then(|a| names.iter().position(|n| n == a));
+    let mut order: Vec<usize> = Vec::with_capacity(fields.len());
+    for field in &fields {
+        match position(field) {
+            Some(p) if !order.contains(&p) => order.push(p),
+            _ => return fields,
+        }
+    }
+    if order.len() != names.len() {
+        return fields;
+    }
+    let mut slots: Vec<Option<pl::Expr>> = names.iter().map(|_| None).collect();
+    for (field, p) in fields.into_iter().zip(order) {
+        slots[p] = Some(field);
+    }
+    slots.into_iter().flatten().collect()
 }
 
 /// Attempts to extract column names from an S-String to avoid wildcards when possible
